@@ -2,7 +2,7 @@
    ford.utils.strip_paren, the regular expressions of ford.sourceform as Python's re runs them,
    FortranContainer._add_procedure_calls, Associations and unit.calls after correlate(). *)
 From Coq Require Import ZArith.
-From Ford Require Import Base.Str Gen.Intrinsics Sem.Calls Sem.CallsSpec.
+From Ford Require Import Base.Str Gen.Intrinsics Sem.Calls Sem.CallsSpec Sem.CallsDefs.
 
 Definition chains_eqb (a b : list chain) : bool := list_eqb (list_eqb str_eqb) a b.
 Definition strs_eqb (a b : list str) : bool := list_eqb str_eqb a b.
@@ -89,14 +89,16 @@ Fixpoint incl_b (a b : list str) : bool :=
   match a with [] => true | x :: a' => str_in x b && incl_b a' b end.
 Definition set_eqb (a b : list str) : bool := incl_b a b && incl_b b a.
 
-Definition judge_unit (c : symtab * symtab * list str * option (list str) * option (list stmt)) : nat :=
-  let '(tb_ford, tb_true, srcs, impl, asts) := c in
+Definition judge_unit (c : symtab * symtab * list str * option (list str) * option (list stmt) * bool) : nat :=
+  let '(tb_ford, tb_true, srcs, impl, asts, strict) := c in
   let model_bad := negb (opt_eqb strs_eqb (recorded tb_ford srcs) impl) in
   match asts with
   | None => verdict model_bad false 0
   | Some ss =>
     (* the harness renderer must agree with the Coq renderer, and the ASTs must be well formed *)
-    if negb (strs_eqb (map mask_quotes srcs) (map render_stmt ss) && forallb wf_stmt ss) then 1024
+    (* (not [strict]: the source was re-spaced — blanks between a name and "(", around "%" — which
+       Fortran ignores; the ASTs are then compared through the Spec only) *)
+    if negb ((negb strict || strs_eqb (map mask_quotes srcs) (map render_stmt ss)) && forallb wf_stmt ss) then 1024
     else
       let spec_bad :=
         match impl with
@@ -105,3 +107,14 @@ Definition judge_unit (c : symtab * symtab * list str * option (list str) * opti
         end in
       verdict model_bad spec_bad (region_of tb_ford tb_true ss)
   end.
+
+(* how many generated units satisfy the hypothesis of C08_exact (with the tables Fortran's scoping
+   gives): 1 = resolvable; the conclusion is re-evaluated as well (2 = it fails — impossible) *)
+Definition judge_resolvable (c : symtab * list str * list stmt) : nat :=
+  let '(tb, srcs, ss) := c in
+  if resolvable tb ss then
+    match recorded tb srcs with
+    | Some l => if set_eqb l (calls_of tb ss) then 1 else 2
+    | None => 2
+    end
+  else 0.
